@@ -552,6 +552,16 @@ func (w *World) resolveLoadX(v ssa.Value, hopParams bool) ssa.Value {
 			v = a
 			continue
 		}
+		if fx, isF := v.(*ssa.Field); isF && hopParams {
+			// a field of a struct VALUE (by-value parameter, helper's struct result)
+			if st, _ := fx.X.Type().Underlying().(*types.Struct); st != nil {
+				if r := w.structFieldValue(fx.X, []string{st.Field(fx.Field).Name()}, 0); r != nil && r != v {
+					v = r
+					continue
+				}
+			}
+			return v
+		}
 		u, ok := v.(*ssa.UnOp)
 		if !ok || u.Op != token.MUL {
 			return v
@@ -595,6 +605,16 @@ func (w *World) resolveLoadX(v ssa.Value, hopParams bool) ssa.Value {
 			}
 			v = ss[0].Val
 			continue
+		}
+		if len(ss) == 0 {
+			// a field of a by-value copy (the spill slot of a struct parameter, a local
+			// struct assigned as a whole): the field of the value it was copied from
+			if _, isFA := u.X.(*ssa.FieldAddr); isFA {
+				if r := w.localStructField(al, pathOf(u.X), u, 0); r != nil {
+					v = r
+					continue
+				}
+			}
 		}
 		if len(ss) != 1 || inLoopWith(ss[0], u) {
 			// several stores: the one that reaches this load, when it is unique and in the
